@@ -464,6 +464,9 @@ func (n *Normer) valueCases(fn *ssa.Function, from *ssa.BasicBlock, v ssa.Value,
 	if depth > 3 {
 		return []valCase{{n.Norm(v), cTrue}}
 	}
+	if _, bound := n.Bind[v]; bound {
+		return []valCase{{n.Norm(v), cTrue}}
+	}
 	// result of a multi-block helper: one alternative per return
 	if ex, ok := v.(*ssa.Extract); ok {
 		if call, ok := ex.Tuple.(*ssa.Call); ok {
